@@ -438,6 +438,10 @@ func (g *ProgGen) node(depth int, aux []string, inBlock bool) Node {
 		nm := g.id("c")
 		n := &NSetCap{Name: nm, Body: g.body(depth, aux, inBlock), ID: g.id("S")}
 		g.locals = append(g.locals, nm)
+		if g.Inert && r.Intn(2) == 0 {
+			// the idiom for captured markup: print the capture through raw (what was printed inside is already escaped)
+			return &NIf{Conds: []Expr{&EBool{V: true}}, Bodies: [][]Node{{n, &NPrint{X: &EFilter{X: &EName{Name: nm}, Name: "raw"}, ID: g.id("P")}}}, ID: g.id("I")}
+		}
 		return n
 	case 15:
 		nf := 1 + r.Intn(3)
